@@ -21,14 +21,14 @@ RULE = ("expression trees over operands %s: exhaustive up to a leaf/depth bound 
         "table over all 128 subsets of %s. A case = (tree, rendering); non-trivial = tree has at least one operator; "
         "distinct by hash of (tree, rendered text)." % (OPERANDS, UNIVERSE))
 ASSUMPTIONS = [
-    "tags contain no blanks, parentheses or backslashes (outside the statement)",
+    "tags contain no blanks (parentheses and backslashes: only in the 'needs_escape' name class, written escaped)",
     "the reference evaluator and glob matcher in bvm/gen/tagexpr.py are correct (they share no code with behave)",
     "third-party cucumber_tag_expressions is part of the executed system (as installed in /venv)",
 ]
 REQUIRED = {"v2.meaning": {"quick": 3000, "thorough": 100000}, "v2.print_roundtrip": {"quick": 3000, "thorough": 100000},
-            "v2.config_substitution": 100, "v2.empty_selects_all": 3, "v2.list_form": 300, "v2.wip_adds_wip_term": 100, "v2.config_file_tags": 100, "v2.list_form_default_protocol": 500, "v2.meaning_for_any_iterable_of_tags": 1000}
-REQUIRED_SEEN = {"list_terms_shape": ["same_words_other_parentheses"], "console_encoding": ["cp1252", "latin-1", "cp850", "ascii", "utf-8"],
-                 "tags_given_as": ["generator", "iter", "map", "tuple", "frozenset", "dict_keys", "reversed"], "default_protocol_list_shape": ["only_single_tags"], "config_list_shape": ["placeholder_after_plain_part", "other"], "config_file_kind": ["toml", "ini"],
+            "v2.config_substitution": 100, "v2.empty_selects_all": 3, "v2.list_form": 300, "v2.wip_adds_wip_term": 100, "v2.config_file_tags": 100, "v2.meaning_for_special_tag_names": 400, "v2.list_form_default_protocol": 500, "v2.meaning_for_any_iterable_of_tags": 1000}
+REQUIRED_SEEN = {"tag_name_class": ["compatibility_characters", "needs_escape"], "list_terms_shape": ["same_words_other_parentheses"], "console_encoding": ["cp1252", "latin-1", "cp850", "ascii", "utf-8"],
+                 "tags_given_as": ["generator", "iter", "map", "tuple", "frozenset", "dict_keys", "reversed"], "default_protocol_list_shape": ["only_single_tags"], "config_list_shape": ["placeholder_after_plain_part", "other"], "config_file_kind": ["toml", "ini"], "config_file_tag_names": ["with_hash_character", "ordinary"],
                  "config_file_mode": ["none", "plain", "placeholder", "placeholder_and_plain", "wip"]}
 EXHAUSTIVE = {"quick": True, "thorough": True}
 EXHAUSTIVE_SCOPE = "all binary and/or/not trees up to the leaf bound over the operand set, complete truth tables"
@@ -309,7 +309,58 @@ def check_print_on_legacy_console(lab, mon, rng):
     mon.seen("console_encoding", enc)
 
 
-def check_config_files(lab, mon, rng):
+NAME_CLASSES = {
+    # names that text normalisation would change: MICRO SIGN / GREEK MU, SUPERSCRIPT TWO / 2, decomposed / composed accent, ANGSTROM SIGN / A-ring
+    "compatibility_characters": [u"\u00b5s", u"\u03bcs", u"m\u00b2", u"m2", u"Cafe\u0301", u"Caf\u00e9", u"\u212b", u"\u00c5"],
+    # names that have to be escaped in an expression (legal tags in a feature file: @browser(chrome))
+    "needs_escape": [u"browser(chrome)", u"p(1)", u"a\\b", u"browser", u"chrome)", u"(x"],
+}
+
+
+def escaped(name):
+    return name.replace("\\", "\\\\").replace("(", "\\(").replace(")", "\\)")
+
+
+def check_name_class(lab, mon, rng, label, protocol=None, monitor="v2.meaning_for_special_tag_names"):
+    """Operands from a class of unusual tag names: the expression is written over placeholders, then every placeholder is replaced by
+    the (escaped) name; complete truth table over all subsets of that class."""
+    names = NAME_CLASSES[label]
+    subs = list(T.subsets(names))
+    stand_ins = ["Q%d" % i for i in range(len(names))]
+    while True:
+        tree = T.random_tree(rng, stand_ins, rng.choice([1, 2, 2]), nary=True)
+        if tree[0] != "lit":
+            break
+
+    def real(t):
+        if t[0] == "lit":
+            return ["lit", names[int(t[1][1:])]]
+        return [t[0]] + [real(x) for x in t[1:]]
+    ast = real(tree)
+    at = rng.choice([True, False])
+    text = T.render_v2(tree, rng, rng.choice(["min", "full", "redundant"]), at)
+    for i in reversed(range(len(names))):
+        text = text.replace("Q%d" % i, escaped(names[i]))
+    want = T.truth_table(ast, subs)
+    case = {"kind": "special-names", "class": label, "text": text, "ast": ast}
+    mon.case(case, True)
+    mon.seen("tag_name_class", label)
+    try:
+        e = lab.make(text, protocol or lab.P.V2)
+        got = T.truth_table_of(e.check, subs)
+        mon.check(monitor, got == want, lambda: dict(case=case, want=want, got=got, parsed=repr(e), printed=str(e)))
+        e2 = lab.make(str(e), protocol or lab.P.V2)
+        got2 = T.truth_table_of(e2.check, subs)
+        mon.check(monitor, got2 == want, lambda: dict(case=case, want=want, got_after_print_and_reparse=got2, printed=str(e)))
+    except Exception as ex:
+        mon.check(monitor, False, dict(case=case, error=repr(ex)))
+
+
+HASH_UNIVERSE = ["c#", "f#", "issue#12", "smoke", "c", "issue"]
+HASH_SUBSETS = list(T.subsets(HASH_UNIVERSE))
+
+
+def check_config_files(lab, mon, rng, hash_names=False):
     """Tags written into a configuration file (behave.ini / setup.cfg / pyproject.toml): without --tags they are the
     expression; with --tags the command line is the expression and {config.tags} in it stands for the file's tags."""
     import os
@@ -324,7 +375,8 @@ def check_config_files(lab, mon, rng):
         os.makedirs(os.path.join(root, "work"))
         os.environ["HOME"] = os.path.join(root, "home")
         os.chdir(os.path.join(root, "work"))
-        cfg_terms = [T.random_tree(rng, OPERANDS, rng.choice([1, 1, 2]), nary=True) for _ in range(rng.choice([1, 1, 2]))]
+        operands = HASH_UNIVERSE if hash_names else OPERANDS      # (issue-reference style names: a '#' is an ordinary tag character)
+        cfg_terms = [T.random_tree(rng, operands, rng.choice([1, 1, 2]), nary=True) for _ in range(rng.choice([1, 1, 2]))]
         cfg_texts = [T.render_v2(t, rng, "full", rng.choice([True, False])) for t in cfg_terms]
         cfg_ast = ["and"] + cfg_terms if len(cfg_terms) > 1 else cfg_terms[0]
         kind = rng.choice(["behave.ini", "setup.cfg", "pyproject.toml", "pyproject.toml"])
@@ -335,7 +387,7 @@ def check_config_files(lab, mon, rng):
         with open(kind, "w") as fh:
             fh.write(body)
         mode = rng.choice(["none", "plain", "placeholder", "placeholder_and_plain", "wip"])
-        rest = T.random_tree(rng, OPERANDS, rng.choice([1, 2]), nary=True)
+        rest = T.random_tree(rng, operands, rng.choice([1, 2]), nary=True)
         rest_text = T.render_v2(rest, rng, "full", False)
         if mode == "none":
             args, want_ast = [], cfg_ast
@@ -347,7 +399,8 @@ def check_config_files(lab, mon, rng):
             args, want_ast = ["--tags=" + rest_text, "--tags={config.tags}"], ["and", rest, cfg_ast]
         else:
             args, want_ast = ["--wip", "--tags=" + rest_text], ["and", rest, ["lit", "wip"]]
-        subs = WIP_SUBSETS if mode == "wip" else SUBSETS
+        subs = WIP_SUBSETS if mode == "wip" else (HASH_SUBSETS if hash_names else SUBSETS)
+        mon.seen("config_file_tag_names", "with_hash_character" if hash_names else "ordinary")
         if mode == "wip":
             # (operands outside the small wip universe evaluate over it all the same)
             pass
@@ -461,8 +514,10 @@ def run(spec, mon):
         r = T.random_tree(rng, OPERANDS, rng.choice([0, 1, 2]), nary=True)
         check_config(lab, mon, c, r, rng, j % len(TEMPLATES), as_list=("multi" if j % 3 == 1 else (j % 3 == 0)))
         check_wip(lab, mon, rng)
-        check_config_files(lab, mon, rng)
+        check_config_files(lab, mon, rng, hash_names=(j % 3 == 1))
         check_lookalike_terms(lab, mon, rng)
+        for label in sorted(NAME_CLASSES):
+            check_name_class(lab, mon, rng, label)
         check_print_on_legacy_console(lab, mon, rng)
         for _ in range(3):
             check_default_protocol_lists(lab, mon, rng)
